@@ -134,11 +134,15 @@ Connect(a, b) ==
   /\ UNCHANGED <<phase, cfgv>>
 
 \* Loopback(b, a, k, inskips): feed the output of layer b back into layer a for k iterations.
-\* Up to MaxConnects loop connections per network, over pairwise disjoint ranges (declared in any order).
+\* Up to MaxConnects loop connections per network, declared in any order: over disjoint ranges, or -- without input
+\* skips -- over NESTED or OVERLAPPING ranges (one loop per last layer: the library keys its loops by `outof`).  A loop is
+\* run when the main pass reaches its last layer; the re-applications are PLAIN applications of the range (an inner loop is
+\* not run again inside an outer loop's iterations).
 Loopback(a, b, k, isk) ==
   /\ Mode = "loop" /\ phase = "build" /\ Len(hist) < MaxConnects
   /\ a <= b /\ net.layers[a].in = net.layers[b].out
-  /\ \A lp \in net.loops : b < lp.into \/ lp.outof < a
+  /\ \A lp \in net.loops : \/ b < lp.into \/ lp.outof < a
+                             \/ (lp.outof # b /\ ~isk /\ ~lp.inskips)
   /\ hist' = Append(hist, [op |-> "loopback", outof |-> b, into |-> a, iterations |-> k, inskips |-> isk, outcome |-> "ok"])
   /\ net' = [net EXCEPT !.loops = @ \cup {[outof |-> b, into |-> a, iterations |-> k, inskips |-> isk]}]
   /\ UNCHANGED <<phase, cfgv>>
